@@ -328,7 +328,12 @@ def stage_ruleset(case: Dict[str, Any]) -> Dict[str, str]:
     try:
         problems = hmm_detection.check_options(options)
         if problems:
-            return {"ruleset": json.dumps({"rejected": sorted(problems)})}
+            # the messages print a Python set of the unknown names: the text of a refusal is not a result,
+            # the names are compared as a sorted list
+            def canon(message: str) -> str:
+                return re.sub(r"\{([^{}]*)\}", lambda m: "{" + ", ".join(sorted(x.strip() for x in m.group(1).split(","))) + "}",
+                              message)
+            return {"ruleset": json.dumps({"rejected": sorted(canon(p) for p in problems)})}
         hmm_detection.get_ruleset.cache_clear() if hasattr(hmm_detection.get_ruleset, "cache_clear") else None
         ruleset = hmm_detection.get_ruleset(options)
         return {"ruleset": json.dumps([rule.name for rule in ruleset.rules]),
